@@ -187,6 +187,13 @@ def _mutated_params(P, eff):
                         continue
                     params = callee.params
                     for i, a in enumerate(c.args):
+                        # an array held by a caller-owned object
+                        # (distribution.x) is the caller's as well
+                        while isinstance(a, ast.Attribute) and isinstance(
+                                a.value, (ast.Name, ast.Attribute)) and not (
+                                isinstance(a.value, ast.Name) and
+                                a.value.id in ('self', 'cls', 'np')):
+                            a = a.value
                         if isinstance(a, ast.Name) and a.id in fe.alias and \
                                 a.id not in fe.fresh_names and i < len(params) \
                                 and params[i] in cm:
